@@ -421,14 +421,14 @@ func (r *c17Runner) setMeta(f []string) string {
 	a := &c17Args{f: f[1:]}
 	c := a.chanP()
 	m := metadb.ChannelRuntimeMeta{ChannelID: c17Chan(c), ChannelType: c17ChannelType}
-	m.ChannelEpoch = a.lit()
-	m.LeaderEpoch = a.lit()
-	m.Leader = a.lit()
-	m.MinISR = int64(a.lit())
-	m.LeaseUntilMS = int64(a.lit())
+	cur := r.curMeta(c)
+	m.ChannelEpoch = a.val(cur.ChannelEpoch)
+	m.LeaderEpoch = a.val(cur.LeaderEpoch)
+	m.Leader = a.val(cur.Leader)
+	m.MinISR = int64(a.val(uint64(cur.MinISR)))
+	m.LeaseUntilMS = int64(a.val(uint64(cur.LeaseUntilMS)))
 	m.Replicas = c17List(a.next())
 	m.ISR = c17List(a.next())
-	cur := r.curMeta(c)
 	m.WriteFenceToken = c17Tok(a.val(c17TokCur(cur.WriteFenceToken)))
 	m.WriteFenceVersion = a.val(cur.WriteFenceVersion)
 	m.WriteFenceReason = uint8(a.val8(uint64(cur.WriteFenceReason)))
